@@ -16,6 +16,7 @@ class SocketIO:
     def __init__(self, sock, execmodel: ExecModel) -> None:
         self.sock = sock
         self.execmodel = execmodel
+        self._writelock = execmodel.Lock()
         socket = execmodel.socket
         try:
             # IPTOS_LOWDELAY
@@ -35,7 +36,10 @@ class SocketIO:
         return buf
 
     def write(self, data: bytes) -> None:
-        self.sock.sendall(data)
+        # sendall() may interleave the partial sends of concurrent callers,
+        # a message has to go out in one piece
+        with self._writelock:
+            self.sock.sendall(data)
 
     def close_read(self) -> None:
         try:
